@@ -7,6 +7,7 @@
   specification `Gsm7.packSpec`.
 -/
 import SmsVerif.Model.Gsm7
+import SmsVerif.Lemmas.Pack
 import SmsVerif.Spec.Gsm7
 import SmsVerif.Gen.Tables
 
@@ -210,6 +211,20 @@ example : encode T [49, 50, 64, 91, 8364] = some [0x31, 0x32, 0x00, 0x1B, 0x3C, 
 example : packGo [0x31, 0x32, 0x33, 0x34, 0x35, 0x36, 0x37] = packSpec [0x31, 0x32, 0x33, 0x34, 0x35, 0x36, 0x37] := by decide
 example : unpackGo (packGo [0x31, 0x32, 0x33, 0x34, 0x35, 0x36, 0x37, 0x00, 0x61]) = [0x31, 0x32, 0x33, 0x34, 0x35, 0x36, 0x37, 0x00, 0x61] := by decide
 
+/-- **pack = TS 23.038 bit stream**: for every septet string the block algorithm of
+    `gsm7encoding.Pack` (masks, shifts and ors on bytes) yields exactly the specified octets: septet
+    `i` in bits `7i..7i+6` of the little-endian stream, ⌈7n/8⌉ octets, zero fill, CR in the seven
+    spare bits when n ≡ 7 (mod 8) -/
+theorem C08_pack_is_spec (s : List Nat) (h : ∀ x ∈ s, x < 128) : packGo s = packSpec s :=
+  packGo_eq_spec s h
+
+/-- **interoperability**: a receiver that knows the septet count (it is in the TP-UDL field) reads
+    every septet back from what `Pack` produced -/
+theorem C08_handset_reads_back (s : List Nat) (h : ∀ x ∈ s, x < 128) : unpackSpec s.length (packGo s) = s := by
+  rw [packGo_eq_spec s h]; exact unpackSpec_packSpec s h
+
+example : packGo [0x31, 0x32, 0x33, 0x34, 0x35, 0x36, 0x37] = [0x31, 0xD9, 0x8C, 0x56, 0xB3, 0xDD, 0x1A] := by decide
+
 end SmsVerif.C08
 
 section
@@ -223,4 +238,6 @@ open SmsVerif.C08
 #print axioms C08_alphabet_complete
 #print axioms C08_pack_length
 #print axioms C08_packSpec_length
+#print axioms C08_pack_is_spec
+#print axioms C08_handset_reads_back
 end
